@@ -96,8 +96,13 @@ def main() -> int:
         try:
             src = os.path.join(scratch, "src")
             shutil.copytree(rp2_src(), src, ignore=shutil.ignore_patterns("__pycache__"))
-            apply(src, mutant)
             record: Dict[str, Any] = {"id": mutant["id"], "what": mutant["what"], "checks": {}}
+            try:
+                apply(src, mutant)
+            except RuntimeError as exc:
+                print(f"STALE  {mutant['id']:34s} {exc}")
+                results.append(dict(record, stale=True))
+                continue
             if args.tests:
                 record["tests"] = run_tests(src)
             for check in checks:
@@ -114,6 +119,7 @@ def main() -> int:
                 record["checks"][check] = {"exit": proc.returncode, "caught": proc.returncode == 1 and "VIOLATION" in proc.stdout, "rule": rule, "wall_s": round(time.time() - t0, 1)}
             results.append(record)
             caught = all(v["caught"] for v in record["checks"].values())
+            record["caught"] = caught
             tests = record.get("tests")
             tests_text = f" tests={tests['stable_passed']}/{tests['stable_total']}" if tests else ""
             print(f"{'CAUGHT' if caught else 'MISSED'} {mutant['id']:34s} {' '.join(f'{k}:exit{v['exit']}' for k, v in record['checks'].items())}{tests_text}  {mutant['what']}")
@@ -126,7 +132,7 @@ def main() -> int:
     if args.json:
         with open(args.json, "w", encoding="utf-8") as handle:
             json.dump(results, handle, indent=1)
-    missed = [r["id"] for r in results if not all(v["caught"] for v in r["checks"].values())]
+    missed = [r["id"] for r in results if r.get("stale") or not all(v["caught"] for v in r["checks"].values())]
     print(f"{len(results) - len(missed)}/{len(results)} mutants caught; missed: {missed}")
     return 0 if not missed else 1
 
